@@ -9,6 +9,12 @@
 //	   state merging: every Sum (also in the middle of the stream) is the reference
 //	   digest of the bytes written since the last Reset, and the stream continues.
 //
+//	L  long inputs 2^k + {-1,0,1,55,56,63,64,65} up to 4 MiB (thorough: 512 MiB) so that the
+//	   upper bytes of the length field and multi-block _Block calls are exercised.
+//
+// Hardening pass: caller-owned Write buffers, pre-filled Sum destinations, mid-stream Sum
+// at every cut and Reset-of-a-used-object in G.
+//
 // Oracles: verif/ref/md4ref (RFC 1320) and verif/ref/rmd160ref (RIPEMD-160 paper).
 package main
 
@@ -111,6 +117,23 @@ func plans(L int, full bool, f func(plan []int) bool) int {
 	return n
 }
 
+func clobber(b []byte) {
+	for i := range b {
+		b[i] ^= 0xFF
+	}
+}
+
+// sumInto calls h.Sum with a 3-byte prefix whose spare capacity holds old contents (a
+// reused destination) and returns the result.
+func sumInto(h hash.Hash, size int) []byte {
+	dst := make([]byte, 3+size+8)
+	for i := range dst {
+		dst[i] = 0xA5 ^ byte(i)
+	}
+	copy(dst, "pfx")
+	return h.Sum(dst[:3])
+}
+
 func dataClass(c *vf.Ctx, label string, class, n int) []byte {
 	switch class {
 	case 1:
@@ -129,12 +152,16 @@ func dataClass(c *vf.Ctx, label string, class, n int) []byte {
 
 func run(c *vf.Ctx) {
 	c.Rule("(G) {md4, ripemd160} x message lengths {0..320 all; every L<=2000 with L mod 64 in {0,1,2,53..58,62,63}; 2000} x chunkings {one Write, byte-wise, strides 7/55/56/63/64/65, every two-way split (class 0) or boundary two-way splits, boundary three-way splits} x value classes {seeded, 0xFF, 0x00, ascending}; " +
-		"(S) every history over {Write 1,9,55,56,63,64,65; Sum; Reset} to depth D, no state merging. " +
+		"(S) every history over {Write 1,9,55,56,63,64,65; Sum; Reset} to depth D, no state merging; " +
+		"(L) long inputs 2^k+{-1,0,1,55,56,63,64,65}, k=10..22 (md4 quick: {-1,0,56} for k=21,22; thorough adds 2^29 and 2^29+56 so that the bit length needs a fifth byte) x chunkings {one Write, 1/63/65 then rest, two parts meeting at 2^(k-1)+1, strides 4095 and 65537} on one reused (Reset) object. " +
+		"Non-initial states in (G): every message also with a double Sum in the middle at every cut (where every two-way split is enumerated; 16 boundary cuts otherwise) and on an object that absorbed L other bytes and was Reset. " +
+		"Caller-owned buffers / reused destinations: every Write gets a private copy (must be left unmodified, overwritten afterwards); every Sum appends to a prefix whose spare capacity holds old contents, and the result is overwritten afterwards. " +
 		"non-trivial = distinct (alg, length, class) with length >= 55 (padding spills / more than one block), every history of depth >= 2. oracle = RFC 1320 / RIPEMD-160 reference models")
 	c.Assume("reference models verif/ref/md4ref, verif/ref/rmd160ref (validated against the RFC 1320 / RIPEMD-160 test vectors, CPython hashlib and openssl)")
 	c.Assume("values are a fixed alphabet plus seeded classes; every shape is enumerated, not every value")
 	for _, a := range algs() {
 		grid(c, a)
+		longGrid(c, a)
 		sequences(c, a)
 		// registration with package crypto
 		c.Eval(1)
@@ -180,16 +207,25 @@ func grid(c *vf.Ctx, a *alg) {
 			h := a.new()
 			pos := 0
 			for _, n := range plan {
-				w, err := h.Write(msg[pos : pos+n])
+				// the caller owns the buffer: private copy, overwritten after the call;
+				// Write must not modify it (io.Writer)
+				wbuf := append([]byte(nil), msg[pos:pos+n]...)
+				w, err := h.Write(wbuf)
 				if w != n || err != nil {
 					c.Violation(a.name+": Write return value wrong", map[string]any{"n": n, "got": w, "err": fmt.Sprint(err)})
 					bad = true
 					return false
 				}
+				if !bytes.Equal(wbuf, msg[pos:pos+n]) {
+					c.Violation(a.name+": Write modifies the caller's buffer", map[string]any{"msglen": g.L, "n": n})
+					bad = true
+					return false
+				}
+				clobber(wbuf)
 				pos += n
 			}
 			c.Eval(1)
-			got := h.Sum([]byte("pfx"))
+			got := sumInto(h, a.size)
 			if len(got) != 3+a.size || string(got[:3]) != "pfx" || !bytes.Equal(got[3:], want) {
 				pl := append([]int(nil), plan...)
 				if len(pl) > 8 {
@@ -205,6 +241,12 @@ func grid(c *vf.Ctx, a *alg) {
 		if bad {
 			return
 		}
+		// dimension D (non-initial states): the same message with a double Sum in the middle at
+		// every cut (where every two-way split is enumerated, first six classes; boundary cuts otherwise), and
+		// on an object that absorbed L other bytes (+ a Sum for odd L) before being Reset
+		if !gridStates(c, a, g.L, g.class, full && g.class < 6, msg, want) {
+			return
+		}
 		if h := a.new(); h.Size() != a.size || h.BlockSize() != 64 {
 			c.Violation(a.name+": Size/BlockSize wrong", map[string]any{"size": h.Size(), "blocksize": h.BlockSize()})
 		}
@@ -213,6 +255,139 @@ func grid(c *vf.Ctx, a *alg) {
 		}
 		if g.L == 120 && g.class == 0 {
 			c.Sample(map[string]any{"section": "G", "alg": a.name, "msglen": g.L, "chunkings": np, "digest": fmt.Sprintf("%x", want)})
+		}
+	})
+}
+
+func gridStates(c *vf.Ctx, a *alg, L, class int, full bool, msg, want []byte) bool {
+	bad := func(what string, cut int, got []byte) bool {
+		c.Violation(a.name+": "+what, map[string]any{"msglen": L, "class": class, "cut": cut, "got": fmt.Sprintf("%x", got), "want": fmt.Sprintf("%x", want)})
+		return false
+	}
+	midSum := func(cut int) bool {
+		h := a.new()
+		h.Write(msg[:cut])
+		s1 := h.Sum(nil)
+		s2 := sumInto(h, a.size)[3:]
+		c.Eval(1)
+		if !bytes.Equal(s1, s2) {
+			return bad("Sum in the middle of a stream is not idempotent", cut, s2)
+		}
+		clobber(s1)
+		clobber(s2)
+		h.Write(msg[cut:])
+		if got := h.Sum(nil); !bytes.Equal(got, want) {
+			return bad("Sum in the middle of a stream alters the running state", cut, got)
+		}
+		return true
+	}
+	if full {
+		for cut := 0; cut <= L; cut++ {
+			if !midSum(cut) {
+				return false
+			}
+		}
+	} else {
+		for _, cut := range [...]int{0, 1, 55, 56, 57, 63, 64, 65, 119, 120, 127, 128, L - 9, L - 8, L - 1, L} {
+			if cut >= 0 && cut <= L && !midSum(cut) {
+				return false
+			}
+		}
+	}
+	h := a.new()
+	junk := make([]byte, L)
+	for i := range junk {
+		junk[i] = ^msg[i] ^ byte(i)
+	}
+	h.Write(junk)
+	if L&1 == 1 {
+		h.Sum(nil)
+	}
+	h.Reset()
+	h.Write(msg)
+	c.Eval(1)
+	if got := h.Sum(nil); !bytes.Equal(got, want) {
+		return bad("Reset of a used object does not restore the initial state", L, got)
+	}
+	return true
+}
+
+// ------------------------------------------------------------------ L (long inputs)
+
+// longGrid: lengths 2^k + {-1,0,1,55,56,63,64,65} (block and padding boundaries next to
+// every power of two, so the 64-bit bit-length field gets non-zero bytes 0..3) in write
+// chunkings whose boundaries sit on and cross those points, on one reused object.
+// k = 10..22; md4 in quick uses only {-1,0,56} for k = 21, 22 (the RFC 1320 model runs at a few MB/s).
+// Thorough adds 2^29 and 2^29+56 bytes, where the bit length needs a fifth byte.
+func longGrid(c *vf.Ctx, a *alg) {
+	kmax := 22
+	if a.name == "md4" && !c.Thorough {
+		kmax = 20
+	}
+	var lens []int
+	seen := map[int]bool{}
+	for k := 10; k <= 22; k++ {
+		offs := []int{-1, 0, 1, 55, 56, 63, 64, 65}
+		if k > kmax {
+			offs = []int{-1, 0, 56} // md4 quick: a reduced set for 2^21 and 2^22 (4th length byte)
+		}
+		for _, d := range offs {
+			if L := 1<<k + d; !seen[L] {
+				seen[L] = true
+				lens = append(lens, L)
+			}
+		}
+	}
+	long := c.Bytes("L-"+a.name, 0, 1<<22+65)
+	if c.Thorough {
+		lens = append(lens, 1<<29, 1<<29+56)
+		huge := make([]byte, 1<<29+56)
+		for i := 0; i < len(huge); i += len(long) {
+			copy(huge[i:], long)
+		}
+		long = huge
+	}
+	longPlans := func(L int) [][]int {
+		ps := [][]int{{L}, {1, L - 1}, {63, L - 63}, {65, L - 65}}
+		half := 1
+		for half*2 < L {
+			half *= 2
+		}
+		ps = append(ps, []int{half/2 + 1, L - half/2 - 1})
+		for _, st := range []int{4095, 65537} {
+			if L > st {
+				var p []int
+				for r := L; r > 0; r -= st {
+					p = append(p, min(r, st))
+				}
+				ps = append(ps, p)
+			}
+		}
+		return ps
+	}
+	pfor(c, a.name+" section L", len(lens), func(j int) {
+		L := lens[len(lens)-1-j] // longest first
+		msg := long[:L]
+		want := a.ref(msg)
+		h := a.new()
+		for pi, plan := range longPlans(L) {
+			if pi > 0 {
+				h.Reset() // reused object
+			}
+			pos := 0
+			for _, n := range plan {
+				h.Write(msg[pos : pos+n])
+				pos += n
+			}
+			c.Eval(1)
+			if got := sumInto(h, a.size)[3:]; !bytes.Equal(got, want) {
+				c.Violation(a.name+": digest != reference (long input)", map[string]any{"msglen": L, "chunking": pi, "got": fmt.Sprintf("%x", got), "want": fmt.Sprintf("%x", want)})
+				return
+			}
+		}
+		c.Nontrivial(fmt.Sprintf("L/%s/%d", a.name, L))
+		if L == 1<<kmax+65 {
+			c.Sample(map[string]any{"section": "L", "alg": a.name, "msglen": L, "digest": fmt.Sprintf("%x", want)})
 		}
 	})
 }
@@ -252,23 +427,26 @@ func sequences(c *vf.Ctx, a *alg) {
 			for _, o := range hist {
 				switch o.kind {
 				case 'W':
-					n, err := h.Write(data[pos : pos+o.n])
+					wbuf := append([]byte(nil), data[pos:pos+o.n]...) // caller-owned: overwritten after the call
+					n, err := h.Write(wbuf)
 					if n != o.n || err != nil {
 						return "", true, "Write return value wrong"
 					}
+					clobber(wbuf)
 					pos += o.n
 				case 'Z':
 					h.Reset()
 					pos = 0
 				case 'S':
 					var got []byte
-					if p, _, _ := vf.Protect(func() { got = h.Sum(nil) }); p {
+					if p, _, _ := vf.Protect(func() { got = sumInto(h, a.size) }); p {
 						return "", true, "Sum panics"
 					}
 					sums++
-					if !bytes.Equal(got, a.ref(data[:pos])) {
+					if len(got) != 3+a.size || string(got[:3]) != "pfx" || !bytes.Equal(got[3:], a.ref(data[:pos])) {
 						return "", true, "Sum != reference digest of the bytes written since Reset"
 					}
+					clobber(got[:cap(got)]) // the result is the caller's
 				}
 			}
 			var got []byte
